@@ -7,6 +7,7 @@ pub mod process;
 pub mod rt;
 pub mod sched;
 pub mod shim;
+pub mod timed;
 
 pub use process::{run_process, ProcResult, ProcSpec, Status};
 pub use rt::{Event, Kind, Mode};
